@@ -91,7 +91,7 @@ def sym_layout_case(args):
     muxc, c = SymInt.fresh("mux_count", 0, 5)
     assume.append(c)
     cov = Coverage()
-    eng = Engine(timeout_ms=30000, max_paths=5000)
+    eng = Engine(timeout_ms=240000, max_paths=5000)
 
     def body():
         Rec.log = []
@@ -423,7 +423,7 @@ def c14_writer_case(args):
     text = base.text()
     feats = {"desc": f"write_dbc/{skname}", "skeleton": skname}
     cov = Coverage()
-    eng = Engine(timeout_ms=30000, max_paths=5000)
+    eng = Engine(timeout_ms=240000, max_paths=5000)
 
     def body():
         Rec.log = []
@@ -522,7 +522,7 @@ def c14_cwriter_case(args):
     for hn, bn, t, w in ref:
         total = total + z3of(w)
     cov = Coverage()
-    eng = Engine(timeout_ms=30000, max_paths=5000)
+    eng = Engine(timeout_ms=240000, max_paths=5000)
 
     def body():
         fcp = parse(text)
